@@ -76,10 +76,14 @@ def instances():
         "datetime.timezone(datetime.timedelta(hours=2), '')")
     try:
         import pytz  # noqa
+        add('pytz', "pytz.timezone('GMT')", "pytz.timezone('Etc/UTC')", "pytz.timezone('Zulu')", "pytz.timezone('Etc/GMT+0')",
+            "pytz.timezone('Etc/GMT-5')", "pytz.FixedOffset(0)", "pytz.FixedOffset(-330)")
         add('pytz', 'pytz.utc', "pytz.timezone('Europe/Helsinki')", "pytz.timezone('US/Eastern')",
             "pytz.timezone('UTC')", "pytz.FixedOffset(90)" if False else "pytz.timezone('Asia/Kolkata')")
         add('datetime', "pytz.timezone('Europe/Helsinki').localize(datetime.datetime(2020, 7, 1, 12))",
-            "pytz.utc.localize(datetime.datetime(2020, 7, 1, 12))")
+            "pytz.utc.localize(datetime.datetime(2020, 7, 1, 12))",
+            "datetime.datetime(2020, 1, 2, tzinfo=pytz.timezone('GMT'))",
+            "datetime.time(1, 2, tzinfo=pytz.timezone('Etc/GMT-5'))")
     except ImportError:
         pass
     add('ordered', 'collections.OrderedDict()', 'collections.OrderedDict([(1, 2), (3, 4)])',
@@ -110,5 +114,8 @@ def instances():
     add('path', "pathlib.PurePosixPath('a/b')", "pathlib.PurePosixPath('.')", "pathlib.PurePosixPath('/')",
         "pathlib.PureWindowsPath('C:/x/y')", "pathlib.PosixPath('/tmp/some where')",
         "pathlib.PurePosixPath('a/../b')", "pathlib.PurePosixPath('" + 'd/' * 45 + "f')",
-        "pathlib.PurePosixPath('it\\'s')")
+        "pathlib.PurePosixPath('it\\'s')",
+        "pathlib.PurePosixPath('//usr/local/lib/python3/site-packages/some/rather/long/path/that/has/to/be/split.py')",
+        "pathlib.PureWindowsPath('//server/share/folder/another folder/yet/another/one/that/is/long/enough/file.txt')",
+        "pathlib.PurePosixPath('/' + 'segment-with-dashes/' * 8 + 'end')")
     return out
